@@ -19,6 +19,8 @@ Inductive fop :=
 | SfmRename (s : nat)                (* rename(<s>.sfm.tmp, <s>.sfm) *)
 | SfmTruncate (s : nat)              (* pre-fix protocol: open(<s>.sfm, O_TRUNC) *)
 | SfmWriteInPlace (s nb : nat)       (* pre-fix protocol: write into <s>.sfm *)
+| SfmUnlink (s : nat)                (* unlink(<s>.sfm): never issued by the writer (no history contains it); observed
+                                        traces that remove a segment's .sfm differ from [ops_of] and replay faithfully *)
 | SegmetaAppend (s : nat)            (* the segment's line appended to segmeta.json *)
 | PqmrWrite (s : nat).               (* one write(2) appending to <s>/pqmr/<pqid>.pqmr (persistent-query match results of
                                         the block just flushed; FlushPqmr runs after WriteRunningSegMeta; the content of
@@ -43,6 +45,7 @@ Definition step (f : fs) (o : fop) : fs :=
   | SfmRename s => upd f s {| bsu := bsu (f s); sfm := tmp (f s); tmp := NoFile |}
   | SfmTruncate s => upd f s {| bsu := bsu (f s); sfm := Invalid; tmp := tmp (f s) |}
   | SfmWriteInPlace s nb => upd f s {| bsu := bsu (f s); sfm := Valid nb; tmp := tmp (f s) |}
+  | SfmUnlink s => upd f s {| bsu := bsu (f s); sfm := NoFile; tmp := tmp (f s) |}
   end.
 
 Definition run (f : fs) (ops : list fop) : fs := fold_left step ops f.
@@ -59,7 +62,11 @@ Definition visible (f : fs) (nseg : nat) : list (nat * nat) := flat_map (seg_vis
 (* a flush issues m writes to column/micro-index/rollup files and n writes to the .sst.tmp file *)
 (* when persistent queries are active for the index, the flush goes on (after the .sfm) with p appending writes to the
    segment's pqmr files: four per persistent query (blkNum, size, bitset length, bitset words) *)
-Inductive hstep := Flush (m n : nat) | Rotate | PqWrites (p : nat).
+(* graceful shutdown (ForcedFlushToSegfile -> AppendWipToSegfile(forceRotate = true)) with events in the open block: the
+   buffer flush (m column writes, block summary, n .sst writes, .sst rename, running .sfm, p pqmr appends) and, in the
+   same call, the rotation of the segment (final .sfm, segmeta.json line).  With an empty buffer the call is a plain
+   rotation ([Rotate]). *)
+Inductive hstep := Flush (m n : nat) | Rotate | PqWrites (p : nat) | ForcedFlush (m n p : nat).
 
 (* WriteSfm, current code *)
 Definition sfm_ops (s nb : nat) : list fop := [SfmTmpTrunc s; SfmTmpWrite s nb; SfmRename s].
@@ -85,6 +92,8 @@ Section Proto.
         | S _ => rotate_ops s b ++ ops_from (S s) 0 r
         end
     | PqWrites p :: r => repeat (PqmrWrite s) p ++ ops_from s b r
+    | ForcedFlush m n p :: r =>
+        flush_ops s b m n ++ repeat (PqmrWrite s) p ++ rotate_ops s (S b) ++ ops_from (S s) 0 r
     end.
 End Proto.
 
@@ -108,6 +117,14 @@ Fixpoint expect_from (s b : nat) (h : list hstep) (k : nat) : list (nat * nat) :
       | S _ => if Nat.leb 4 k then expect_from (S s) 0 r (k - 4) else []
       end
   | PqWrites p :: r => if Nat.leb p k then expect_from s b r (k - p) else []
+  | ForcedFlush m n p :: r =>
+      (* the buffer flush of the shutdown is complete after its .sfm rename (m + n + 5 calls); from then on, at EVERY
+         call of the rest of the forced rotation (pqmr appends, final .sfm through tmp + rename, segmeta.json line), its
+         block must be searchable *)
+      let len := m + n + 5 in
+      if Nat.leb len k then
+        (s, b) :: (if Nat.leb (len + p + 4) k then expect_from (S s) 0 r (k - (len + p + 4)) else [])
+      else if Nat.ltb m k && negb (Nat.eqb b 0) then [(s, b)] else []
   end.
 Definition expect_visible (h : list hstep) (k : nat) : list (nat * nat) := expect_from 0 0 h k.
 
@@ -124,6 +141,28 @@ Fixpoint completed_from (s b : nat) (h : list hstep) (k : nat) : list (nat * nat
       | S _ => if Nat.leb 4 k then completed_from (S s) 0 r (k - 4) else []
       end
   | PqWrites p :: r => if Nat.leb p k then completed_from s b r (k - p) else []
+  | ForcedFlush m n p :: r =>
+      let len := m + n + 5 in
+      if Nat.leb len k then
+        (s, b) :: (if Nat.leb (len + p + 4) k then completed_from (S s) 0 r (k - (len + p + 4)) else [])
+      else []
   end.
+
+(* A forced flush that leaves the running .sfm to the rotation ("the rotation writes the final .sfm anyway"): the
+   protocol of a single shutdown flush without the three .sfm calls of the buffer flush.  Kept for the refuted theorem. *)
+Definition forced_ops_skip_running_sfm (s b m n p : nat) : list fop :=
+  repeat (ColWrite s) m ++ [BsuAppend s] ++ repeat (SstWrite s) n ++ [SstRename s] ++
+  repeat (PqmrWrite s) p ++ rotate_ops sfm_ops s (S b).
+
+(* (current segment, blocks flushed into it) after all calls of a history *)
+Fixpoint pos_from (s b : nat) (h : list hstep) : nat * nat :=
+  match h with
+  | [] => (s, b)
+  | Flush _ _ :: r => pos_from s (S b) r
+  | Rotate :: r => match b with O => pos_from s b r | S _ => pos_from (S s) 0 r end
+  | PqWrites _ :: r => pos_from s b r
+  | ForcedFlush _ _ _ :: r => pos_from (S s) 0 r
+  end.
+Definition pos_after (h : list hstep) : nat * nat := pos_from 0 0 h.
 
 Definition nsegs (h : list hstep) : nat := S (length h).
